@@ -398,7 +398,9 @@ func runBatches(items []*item, out *kit.Out) {
 	}
 }
 
-var names = []string{"a", "b", "c"}
+// field names; one in four is spelled like a key every decode value answers (_len, _description): such a field is a child like any
+// other - listed by keys, reached by its path - whatever the wrapper does with names that start with an underscore
+var names = []string{"a", "b", "c", "a", "b", "c", "_len", "_description"}
 
 func gen(rng *rand.Rand, depth int, n int, L int64, toks *[]treelib.Tok) {
 	for i := 0; i < n; i++ {
